@@ -20,7 +20,7 @@ Args parse_args(int argc, char **argv) {
         else if (k == "--tier") a.tier = val();
         else if (k == "--seed") a.seed = strtoull(val().c_str(), 0, 10);
         else if (k == "--replay") { a.replay = val(); FILE *f = fopen(a.replay.c_str(), "rb"); if (!f) { printf("REPLAY-FAIL sig=replay_file_missing\n%s cannot be read\n", a.replay.c_str()); exit(2); } fclose(f); }
-        else if (k == "--mode") a.mode = val();
+        else if (k == "--mode") { a.mode = val(); if (a.mode == "c01") g_only_crashes = true; }
         else if (k == "--known") {
             std::string f = read_file(val());
             size_t p = 0;
@@ -112,7 +112,9 @@ void Stats::sample_sparse(const std::string &s, uint64_t idx) {
     if (samples.size() < max_samples && (mix(idx) % 997) == 0) samples.push_back(s);
 }
 
+bool g_only_crashes = false;
 std::string Stats::fail(const std::string &sig, const std::string &replay_text, const std::string &detail) {
+    if (g_only_crashes) return "";
     char fn[64]; snprintf(fn, sizeof fn, "/fail-%d-%zu.replay", shard, failures.size());
     std::string path = out + fn;
     write_file(path, replay_text);
